@@ -39,7 +39,7 @@ class FakePath:
     def exists(self):
         return self.name_ in FakePath.FS
 
-    def open(self, mode="r"):
+    def open(self, mode="r", buffering=-1, encoding=None, errors=None, newline=None):
         f = RecFile(self.name_, "b" in mode)
         FakePath.FS[self.name_] = f
         return f
